@@ -438,9 +438,15 @@ def main(chk):
         if chk.expired():
             chk.log('deadline: %d of %d shards done' % (done, len(sh)))
             break
+    srv = fs.server('fs')
     for key, v in sorted(viol.items()):
+        # replay before report: the minimal program of the family once more, alone, in a fresh process
+        r = srv.compile(v['text'], cpu_s=10)
+        got = r.err.split(b'\n')[0] + b'\n'
+        cmd = ('$CPROC_QBE < input.c 2>&1 >/dev/null | head -n 1 > now; cat now; echo "--- $(cat expected)"\n'
+               'cmp -s now got && exit 1   # same diagnostic as recorded: reproduces\nexit 0')
         for _ in range(v['count']):
-            chk.violation(key, v['what'], files={'input.c': v['text']}, cmd='$CPROC_QBE < input.c; echo "status=$?"')
+            chk.violation(key, v['what'], files={'input.c': v['text'], 'got': got, 'expected': v['what'].split(', cproc reports')[0] + '\n'}, cmd=cmd)
     chk.strata = per
     cov = {
         'states': len(states),
